@@ -4215,7 +4215,8 @@ int CLUFactor<R>::solveUpdateLeft(R eps, R* vec, int* nonz, int n)
       y = vec[k];
       StableSum<R> tmp(-y);
 
-      for(j = lbeg[i + 1]; j > k; --j)
+      // k now holds the row index, so the start of the eta vector has to be taken from lbeg again
+      for(j = lbeg[i + 1]; j > lbeg[i]; --j)
       {
          assert(*idx >= 0 && *idx < thedim);
          tmp += vec[*idx++] * (*val++);
